@@ -180,7 +180,15 @@ impl Array {
 
     fn index_or_insert(&mut self, val: &Val) -> Result<&mut Val, ValError> {
         match val {
-            Val::Number(n) => Ok(self.index_arr_or_insert(*n as usize)),
+            Val::Number(n) => {
+                // a sequence can never hold more than isize::MAX bytes: such an index is a bad key,
+                // not an arithmetic overflow in `i + 1` or a capacity-overflow panic
+                let i = *n as usize;
+                if i >= isize::MAX as usize / std::mem::size_of::<Val>() {
+                    return Err(ValError::InvalidKey(val.clone()));
+                }
+                Ok(self.index_arr_or_insert(i))
+            }
             Val::Undefined => Ok(self.index_dict_or_insert(DictKey::Undefined)),
             Val::Null => Ok(self.index_dict_or_insert(DictKey::Null)),
             Val::Boolean(b) => Ok(self.index_dict_or_insert(DictKey::Boolean(*b))),
